@@ -90,7 +90,33 @@ Proof.
   destruct (run_command e cfg um (CRename a b0) (start w)) as [[r| | | |] s']; try reflexivity. exact H.
 Qed.
 
-(* all four conjuncts of step_spec together *)
+(* the installation can be listed: on a forest with the base set up the listing command returns
+   (in every environment: it performs no operation, so pretend mode and the fault plan do not matter) *)
+Lemma probe_returns e c um s :
+  C02.forest_ok c (w_fs (s_w s)) = true -> base_set_up c (w_fs (s_w s)) = true ->
+  exists ld, fst (run_command e c um CProbe s) = Ret (Some ld).
+Proof.
+  intros HF HB. unfold C02.forest_ok in HF. apply forest_ok_parts in HF as [HC [o HO]].
+  assert (HD : is_dir (w_fs (s_w s)) (c_layers c) = true).
+  { unfold base_set_up in HB. apply andb_true_iff in HB as [HB _]. apply andb_true_iff in HB as [HB _].
+    apply andb_true_iff in HB as [_ HB]. exact HB. }
+  destruct (C02KernelP.probe_of_total (w_ks (s_w s))) as (ms & ds & EP).
+  unfold run_command, bind, get_fs, guard. rewrite HB. unfold ret at 1.
+  unfold get_layers, find_layers, bind, get_fs. rewrite HD, HC, HO. cbn [negb]. unfold ret at 1.
+  unfold probe_all, refresh_mounts, bind, get_ks. rewrite EP. unfold ret, get_fs. cbn [fst].
+  eexists. reflexivity.
+Qed.
+
+Theorem listable cfg w e um :
+  C02.forest_ok cfg (wo_fs w) = true -> base_set_up cfg (wo_fs w) = true ->
+  v_res (view_of_model cfg w e CProbe um) = ROk.
+Proof.
+  intros HF HB. rewrite view_model_eq. cbv zeta. cbn [v_res].
+  destruct (probe_returns e cfg um (start w)) as (ld & E); [destruct w; exact HF|destruct w; exact HB|].
+  rewrite E. reflexivity.
+Qed.
+
+(* all five conjuncts of step_spec together *)
 Theorem step_spec_view cfg w e cmd um :
   cfg_ok cfg = true -> fs_ok cfg (wo_fs w) = true -> names_distinct cfg w = true ->
   paths_distinct w = true ->
@@ -109,7 +135,12 @@ Proof.
   pose proof (rebase_exact_view cfg w e cmd um Hcfg Hfs Hpd Hp) as H4. cbv zeta in H4.
   pose proof (rename_exact_view cfg w e cmd um Hcfg Hfs Hpd Hp) as H5. cbv zeta in H5.
   assert (Ec : v_cmd (view_of_model cfg w e cmd um) = cmd) by (rewrite view_model_eq; reflexivity).
-  rewrite Ec in *. destruct cmd; try reflexivity; [exact H5|exact H4].
+  rewrite Ec in *. rewrite HF. cbn [andb].
+  assert (H6 : (negb (base_set_up cfg (wo_fs w))
+                || match cmd with CProbe => rclass_beq (v_res (view_of_model cfg w e cmd um)) ROk | _ => true end) = true).
+  { destruct (base_set_up cfg (wo_fs w)) eqn:HB; [|reflexivity]. cbn [andb negb orb].
+    destruct cmd; try reflexivity. now rewrite (listable cfg w e um HF HB). }
+  rewrite H6, andb_true_r. destruct cmd; try reflexivity; [exact H5|exact H4].
 Qed.
 
 Lemma frame_both : forall c f f',
